@@ -526,12 +526,57 @@ Proof.
   - intros i cf ov Hl. by rewrite lookup_empty in Hl.
 Qed.
 
+(* ------------------------------------------------------------------ subsets *)
+Lemma has_prefix_app pre s : has_prefix pre (pre ++ s) = true.
+Proof. induction pre as [|x pre IH]; [done|]. cbn [app has_prefix]. by rewrite Z.eqb_refl, IH. Qed.
+Lemma has_prefix_inv pre k : has_prefix pre k = true -> k = pre ++ drop (length pre) k.
+Proof.
+  revert k; induction pre as [|x pre IH]; intros k H; [done|].
+  destruct k as [|y k]; [done|]. cbn [has_prefix] in H. apply andb_true_iff in H as [Hxy Hr].
+  apply Z.eqb_eq in Hxy as ->. cbn [app length drop]. f_equal. by apply IH.
+Qed.
+Lemma strip_Some pre k k' : strip pre k = Some k' <-> k = pre ++ k'.
+Proof.
+  unfold strip. split.
+  - destruct (has_prefix pre k) eqn:E; [|done]. intros [= <-]. by apply has_prefix_inv.
+  - intros ->. rewrite has_prefix_app. by rewrite drop_app.
+Qed.
+
+Lemma sub_map_NoDup {A} (pre : list Z) (l : list (list Z * A)) :
+  NoDup l.*1 -> NoDup (omap (fun kv => (fun k' => (k', snd kv)) <$> strip pre (fst kv)) l).*1.
+Proof.
+  induction l as [|[k0 x0] l IH]; intros Hnd; [constructor|].
+  cbn [fmap list_fmap] in Hnd. apply NoDup_cons in Hnd as [Hnin Hnd].
+  cbn [omap list_omap fst snd]. destruct (strip pre k0) as [k'|] eqn:E; cbn [fmap option_fmap option_map]; [|by apply IH].
+  cbn [fmap list_fmap fst]. apply NoDup_cons. split; [|by apply IH].
+  intros Hin. apply elem_of_list_fmap in Hin as ([k2 x2] & Hk & Hin). cbn [fst] in Hk. subst k2.
+  apply elem_of_list_omap in Hin as ([k3 x3] & Hin3 & Hf). cbn [fst snd] in Hf.
+  destruct (strip pre k3) as [k3'|] eqn:E3; [|done]. cbn in Hf. injection Hf as -> ->.
+  apply strip_Some in E as ->. apply strip_Some in E3 as ->.
+  apply Hnin. apply elem_of_list_fmap. by exists (pre ++ k', x2).
+Qed.
+
+Lemma lookup_sub_map {A} (pre : list Z) (m : gmap (list Z) A) (k : list Z) : sub_map pre m !! k = m !! (pre ++ k).
+Proof.
+  apply option_eq; intros x. unfold sub_map.
+  rewrite <- elem_of_list_to_map by apply sub_map_NoDup, NoDup_fst_map_to_list.
+  rewrite elem_of_list_omap. split.
+  - intros ([k0 x0] & Hin & Hf). cbn [fst snd] in Hf. destruct (strip pre k0) as [k'|] eqn:E; [|done].
+    cbn in Hf. injection Hf as -> ->. apply strip_Some in E as ->. by apply elem_of_map_to_list.
+  - intros H. exists (pre ++ k, x). split; [by apply elem_of_map_to_list|]. cbn [fst snd].
+    by rewrite (proj2 (strip_Some pre (pre ++ k) k) eq_refl).
+Qed.
+
+Lemma omap_dec_sub_map pre m : omap_dec (sub_map pre m) = sub_map pre (omap_dec m).
+Proof. apply map_eq; intros k. by rewrite lookup_omap_dec, !lookup_sub_map, lookup_omap_dec. Qed.
+
 (* ------------------------------------------------------------------ views *)
 Definition dec_local (lc : raw) : alocal := dec_enc <$> lc.
 Definition node_rel (n : vnode) (an : anode) : Prop :=
   match n, an with
   | VRoot lc ov base, ARoot la Sm => la = dec_local lc /\ omap_dec (ov ∪ base) = Sm
   | VSnap lc p, ASnap la p' => la = dec_local lc /\ p = p'
+  | VSub pre p, ASub pre' p' => pre = pre' /\ p = p'
   | _, _ => False
   end.
 Definition views_rel (vs : vtable) (avs : avtable) : Prop :=
@@ -565,9 +610,10 @@ Lemma content_rel fuel vs avs v : views_rel vs avs -> omap_dec (vmap fuel vs v) 
 Proof.
   intros H. revert v; induction fuel as [|f IH]; intros v; cbn [vmap acontent]; [apply omap_empty|].
   pose proof (H v) as Hv. destruct (vs !! v) as [n|], (avs !! v) as [an|]; try done; [|apply omap_empty].
-  destruct n as [lc ov base|lc p], an as [la Sm|la p']; try done; destruct Hv as [-> Hx].
+  destruct n as [lc ov base|lc p|pre p], an as [la Sm|la p'|pre' p']; try done; destruct Hv as [-> Hx].
   - rewrite omap_dec_union. by rewrite Hx.
   - subst p'. rewrite omap_dec_union. by rewrite IH.
+  - subst p'. rewrite omap_dec_sub_map. by rewrite IH.
 Qed.
 
 Lemma views_rel_insert vs avs v n an : views_rel vs avs -> node_rel n an -> views_rel (<[v := n]> vs) (<[v := an]> avs).
@@ -583,16 +629,43 @@ Proof.
   - rewrite !lookup_delete_ne by done. apply H.
 Qed.
 
+Lemma dec_local_sub_map pre m : dec_local (sub_map pre m) = sub_map pre (dec_local m).
+Proof. apply map_eq; intros k. unfold dec_local. by rewrite lookup_fmap, !lookup_sub_map, lookup_fmap. Qed.
+
+Lemma views_rel_write_f fuel : forall vs avs v o,
+  views_rel vs avs -> views_rel (vwrite_f fuel vs v o) (awrite_f fuel avs v (pkey o) (dec_op o)).
+Proof.
+  induction fuel as [|f IH]; intros vs avs v o H; [done|]. cbn [vwrite_f awrite_f]. pose proof (H v) as Hv.
+  destruct (vs !! v) as [n|], (avs !! v) as [an|]; try done.
+  assert (Hl : forall lc, dec_local (raw_apply1 lc o) = <[pkey o := dec_op o]> (dec_local lc)).
+  { intros lc. unfold dec_local, raw_apply1. rewrite fmap_insert. f_equal. by destruct o. }
+  destruct n as [lc ov base|lc p|pre p], an as [la Sm|la p'|pre' p']; try done; destruct Hv as [-> Hx].
+  - apply views_rel_insert; [done|]. cbn [vset_local vlocal aset_local alocal_of node_rel]. by rewrite Hl.
+  - apply views_rel_insert; [done|]. cbn [vset_local vlocal aset_local alocal_of node_rel]. by rewrite Hl.
+  - subst p'. specialize (IH vs avs p (prefix_op pre' o) H).
+    replace (pkey (prefix_op pre' o)) with (pre' ++ pkey o) in IH by (by destruct o).
+    replace (dec_op (prefix_op pre' o)) with (dec_op o) in IH by (by destruct o). exact IH.
+Qed.
+
 Lemma views_rel_write vs avs v o :
   views_rel vs avs -> views_rel (vwrite vs v o) (awrite avs v (pkey o) (dec_op o)).
 Proof.
-  intros H. unfold vwrite, awrite. pose proof (H v) as Hv.
-  destruct (vs !! v) as [n|], (avs !! v) as [an|]; try done.
-  apply views_rel_insert; [done|].
-  assert (Hl : forall lc, dec_local (raw_apply1 lc o) = <[pkey o := dec_op o]> (dec_local lc)).
-  { intros lc. unfold dec_local, raw_apply1. rewrite fmap_insert. f_equal. by destruct o. }
-  destruct n as [lc ov base|lc p], an as [la Sm|la p']; try done; destruct Hv as [-> Hx];
-    cbn [vset_local vlocal aset_local alocal_of node_rel]; by rewrite Hl.
+  intros H. unfold vwrite, awrite, vfuel, afuel. rewrite (views_rel_size _ _ H). by apply views_rel_write_f.
+Qed.
+
+Lemma views_rel_apply p : forall vs avs v,
+  views_rel vs avs ->
+  views_rel (foldl (fun vs o => vwrite vs v o) vs p) (foldl (fun vs o => awrite vs v (pkey o) (dec_op o)) avs p).
+Proof.
+  induction p as [|o p IH]; intros vs avs v H; [done|]. cbn [foldl]. apply IH. by apply views_rel_write.
+Qed.
+
+Lemma writes_rel fuel : forall vs avs v, views_rel vs avs -> dec_local (vwrites fuel vs v) = awrites fuel avs v.
+Proof.
+  induction fuel as [|f IH]; intros vs avs v H; cbn [vwrites awrites]; [unfold dec_local; apply fmap_empty|].
+  pose proof (H v) as Hv. destruct (vs !! v) as [n|], (avs !! v) as [an|]; try done; [|unfold dec_local; apply fmap_empty].
+  destruct n as [lc ov base|lc p|pre p], an as [la Sm|la p'|pre' p']; try done; destruct Hv as [-> Hx]; try done.
+  subst p'. rewrite dec_local_sub_map. by rewrite (IH vs avs p H).
 Qed.
 
 (* ------------------------------------------------------------------ refinement *)
@@ -615,7 +688,7 @@ Proof.
   pose proof (views_rel_size _ _ HV) as Hsize.
   assert (Hcontent : forall v, omap_dec (vmap (vfuel vs) vs v) = aget avs v).
   { intros v. unfold aget, afuel, vfuel. rewrite <- Hsize. by apply content_rel. }
-  destruct o as [prev cid data p| |v i|v k|v k|v p|v k x|v k|v nv|v| |i]; cbn [step astep s_mgr s_views a_chain a_views].
+  destruct o as [prev cid data p| |v i|v k|v k|v p|v k x|v k|v nv|v|v nv pre|v p| |i]; cbn [step astep s_mgr s_views a_chain a_views].
   - (* OAdd *)
     pose proof (mgr_add_spec m c prev cid data p HI Hwf) as H.
     destruct (mgr_add m prev cid data p) as [m' ok|]; [|done].
@@ -642,9 +715,10 @@ Proof.
   - (* OVDel *) cbn [fst snd]. split; [done|]. split; [done|]. apply (views_rel_write vs avs v (PDel k) HV).
   - (* OVSnap *) cbn [fst snd]. split; [done|]. split; [done|]. apply views_rel_insert; [done|].
     split; [|done]. unfold dec_local. by rewrite fmap_empty.
-  - (* OVChanges *) cbn [fst snd]. split; [|by split]. f_equal. pose proof (HV v) as Hv.
-    destruct (vs !! v) as [n|], (avs !! v) as [an|]; try done.
-    unfold changes_of. destruct n, an; try done; destruct Hv as [-> _]; done.
+  - (* OVChanges *) cbn [fst snd]. split; [|by split]. f_equal. unfold changes_of.
+    unfold vfuel, afuel. rewrite <- Hsize. by rewrite (writes_rel _ vs avs v HV).
+  - (* OVSub *) cbn [fst snd]. split; [done|]. split; [done|]. by apply views_rel_insert.
+  - (* OVApply *) cbn [fst snd]. split; [done|]. split; [done|]. by apply views_rel_apply.
   - (* OEvict *) cbn [fst snd]. split; [done|]. split; [|done].
     destruct HI as (? & ? & ? & ? & ?). repeat split; try done.
   - (* OGetPatch *) cbn [fst snd]. split; [|by split]. f_equal. destruct HI as (_ & _ & _ & Hredo & _). apply Hredo.
